@@ -37,7 +37,10 @@ func (h H) truncationOnlyAtConflict(rule string) {
 		h.C.Check(rule+" open-reset-to-snapshot", site, strings.HasSuffix(arg, ".snaps.index"), h.pos(c.(ssa.Instruction)), "on open the log may only be reset to the snapshot index; found "+arg)
 		st := strings.TrimSuffix(arg, ".snaps.index")
 		r := h.P.Info(os).MustCross(c.(ssa.Instruction), func(a core.Atom) bool {
-			return a.Implies(core.MkAtom("(*log.Log).LastIndex("+st+".log)", "<", arg))
+			// all of the log is covered by the snapshot, or it conflicts with it
+			// at the snapshot index (the install handler's discard decision, F27)
+			return a.Implies(core.MkAtom("(*log.Log).LastIndex("+st+".log)", "<", arg)) ||
+				a.Implies(core.MkAtom("(*storage).getEntryTerm("+st+", "+arg+")#0", "!=", st+".snaps.term"))
 		})
 		h.C.Check(rule+" open-reset-only-if-covered", site, r.OK, h.pos(c.(ssa.Instruction)), "on open the log is reset although it may hold entries beyond the latest snapshot: "+r.Witness)
 	}
